@@ -380,10 +380,12 @@ func (c *Controller) ShouldGossip(msg *bft.Message) (gossip bool, exit bool) {
 func (c *Controller) GossipConsensus(message *bft.Message, senderPubToExclude []byte) {
 	// log the start of the gossip consensus message function
 	var phase lib.Phase
-	if message.Qc == nil {
-		phase = message.Header.Phase
-	} else {
+	switch {
+	case message.Qc != nil && message.Qc.Header != nil:
 		phase = message.Qc.Header.Phase
+	case message.Header != nil:
+		// no certificate, or one without a header (not validated yet at this point)
+		phase = message.Header.Phase
 	}
 	c.log.Debugf("Gossiping consensus message: P: %s %s", phase,
 		crypto.HashString([]byte(message.String())))
